@@ -245,3 +245,5 @@ def check(ctx, rep):
     metarules.frozen_error_bases(ctx, rep, "C07.EXC")
     metarules.missing_default_contradiction(ctx, rep, "C07.INH")
     metarules.for_class_rule(ctx, rep, "C07.META", ("mro",))
+    from .c02 import def_rule
+    def_rule(ctx, rep, "C07.DEF")      # two frozen instances built from one default must not share it
